@@ -109,7 +109,7 @@ type poolRun struct {
 	checkC18 bool
 	checkC19 bool
 	// non-triviality trackers
-	sawGapFill, sawConflict, sawPartialCommit, sawStale, sawDupHash, sawEvict, sawRestart, sawAgeSplit bool
+	sawGapFill, sawConflict, sawPartialCommit, sawStale, sawDupHash, sawEvict, sawRestart, sawAgeSplit, sawLateReport bool
 	commits, batches                                                                                   int
 	kfH13                                                                                              bool
 }
@@ -313,6 +313,9 @@ func poolProperty(checkC18, checkC19 bool) func(t *rapid.T) {
 		r.newPool(uint64(rapid.IntRange(0, 3).Draw(t, "chainHeight")))
 		r.logf("config accounts=%d batchSize=%d timed=%v committed=%v height=%d", m.nAcc, m.batchSize, m.timed, m.committed, m.height)
 		inflight := map[string]bool{} // hashes of batched, not yet committed txs
+		// hashes of batched transactions whose block has not been reported yet although a later block with higher nonces
+		// of their account has (the executor reports every block from its own goroutine, reports can overtake each other)
+		var late []string
 
 		processStep := func(t *rapid.T) {
 			cnt := rapid.IntRange(1, 6).Draw(t, "count")
@@ -444,9 +447,23 @@ func poolProperty(checkC18, checkC19 bool) func(t *rapid.T) {
 				}
 				sort.Strings(infl)
 				sort.Strings(other)
-				mode := rapid.IntRange(0, 4).Draw(t, "commitMode")
+				mode := rapid.IntRange(0, 5).Draw(t, "commitMode")
+				if mode == 5 && len(late) == 0 {
+					mode = 0
+				}
 				var chosen []string
 				switch mode {
+				case 5: // the overtaken report of an earlier block arrives now
+					var rest []string
+					for _, h := range late {
+						if rapid.IntRange(0, 3).Draw(t, "lateTake") > 0 {
+							chosen = append(chosen, h)
+						} else {
+							rest = append(rest, h)
+						}
+					}
+					late = rest
+					r.sawLateReport = r.sawLateReport || len(chosen) > 0
 				case 0, 1: // everything in flight, block order
 					chosen = append(chosen, infl...)
 				case 2: // partial
@@ -500,6 +517,17 @@ func poolProperty(checkC18, checkC19 bool) func(t *rapid.T) {
 					delete(inflight, h)
 				}
 				r.applyCommit(hashes, fmt.Sprintf("mode%d", mode))
+				var overtaken []string
+				for h := range inflight {
+					if _, ok := m.admitted[h]; !ok {
+						overtaken = append(overtaken, h)
+					}
+				}
+				sort.Strings(overtaken)
+				for _, h := range overtaken {
+					delete(inflight, h)
+					late = append(late, h)
+				}
 			},
 			"evict": func(t *rapid.T) {
 				all := rapid.Bool().Draw(t, "all")
@@ -604,6 +632,7 @@ func poolProperty(checkC18, checkC19 bool) func(t *rapid.T) {
 				r.logf("restart(height=%d committed=%v)", h, m.committed)
 				r.newPool(h)
 				inflight = map[string]bool{}
+				late = nil
 				r.sawRestart = true
 			},
 			"setSeq": func(t *rapid.T) {
@@ -703,6 +732,9 @@ func poolProperty(checkC18, checkC19 bool) func(t *rapid.T) {
 		}
 		if r.sawAgeSplit {
 			classes = append(classes, "age-limit-between-parked-transactions")
+		}
+		if r.sawLateReport {
+			classes = append(classes, "overtaken-commit-report")
 		}
 		if r.batches > 0 {
 			classes = append(classes, "has-batch")
